@@ -46,7 +46,9 @@ VFILES = ["SelfCal/WeightModel.v", "SelfCal/WeightProofs.v", "SelfCal/LsqModel.v
           "SelfCal/LsqLinkModel.v", "SelfCal/LsqLinkProofs.v", "SelfCal/WeightQI.v", "SelfCal/GuardModel.v",
           "SelfCal/GuardProofs.v", "SelfCal/C18MErrorModel.v", "SelfCal/C18MErrorProofs.v", "SelfCal/PvalueModel.v",
           "SelfCal/PvalueProofs.v", "SelfCal/PvalueQI.v", "SelfCal/VMatrixModel.v", "SelfCal/VMatrixQI.v",
-          "SelfCal/ExactOverModel.v", "SelfCal/ExactOverProofs.v", "SelfCal/ExactOverExample.v", "Properties_C18.v"]
+          "SelfCal/ExactOverModel.v", "SelfCal/ExactOverProofs.v", "SelfCal/ExactOverExample.v", "SelfCal/VMatrixProofs.v",
+          "SelfCal/ExactOverPvalue.v", "SelfCal/ExactOverPhysical.v", "SelfCal/VMatrixNoise.v", "SelfCal/VMatrixNoiseProofs.v",
+          "SelfCal/VMatrixNoiseExample.v", "Properties_C18.v"]
 
 SIG_NF = [1e-6, 1e-4, 1e-2]
 SIG_TR = [None, 0.0, 1e-5, 1e-3, 1e-1]
@@ -975,7 +977,7 @@ def _vq(drv, lines):
     return [l for l in out.splitlines() if l]
 
 
-def _vmat_replay(ctx, rec, drv, sc, recs, r, stats):
+def _vmat_replay(ctx, rec, drv, sc, recs, r, stats, light=False):
     """Replay one solve of the white-box build against VMatrixModel, frequency by frequency.
     Returns a list of (obligation name, detail) failures."""
     fails = []
@@ -1026,6 +1028,28 @@ def _vmat_replay(ctx, rec, drv, sc, recs, r, stats):
                 if exp != nov or any(t[3] < 0 for t in terms):
                     fails.append(("tie:no_v_thread_vs_VMatrixModel.eq_terms", "%s: system %d equation (%d,%d) of standard %d: "
                                   "thread %r, model %r" % (where, s, row, col, std, nov, exp)))
+        # (3b) T8 / TE10 / U8 / UE10: the term list of every equation vs build_terms_t8 / build_terms_u8
+        if tcode in (0, 1):
+            ql, refs = [], []
+            for s in range(fr["nsys"]):
+                for (std, row, col, terms) in fr["eqs"].get(s, []):
+                    cn, sz = fr["conn"].get(std), fr["szero"].get(std)
+                    if cn is None or sz is None:
+                        continue
+                    ql.append("vterms %d %d %d %d %d %d %s %s" % (tcode, fr["rows"], fr["cols"], row, col, len(cn),
+                                                                " ".join(map(str, cn)), " ".join(map(str, sz))))
+                    refs.append((std, row, col, terms))
+            if fr["findex"] == 0 and ql:
+                for line, (std, row, col, terms) in zip(_vq(drv, ql), refs):
+                    tk = [int(x) for x in line.split()[2:]]
+                    mt = [tuple(tk[5 * j2:5 * j2 + 5]) for j2 in range(len(tk) // 5)]
+                    stats["termlists"] += 1
+                    if mt != list(terms):
+                        fails.append(("tie:term_lists_vs_VMatrixModel.build_terms", "%s: standard %d equation (%d,%d): library %r, "
+                                      "model %r" % (where, std, row, col, terms, mt)))
+                        break
+        if light:
+            continue
         # (4) passes: rows with the model's V state and the code's weights; V update from the code's x
         ev = fr["events"]
         i = 0
@@ -1143,11 +1167,17 @@ def part_vmatrix(ctx, rec):
     sq = [("T8", 2), ("U8", 2), ("TE10", 2), ("UE10", 2), ("UE14", 2), ("E12", 2), ("T16", 2), ("U16", 2), ("T8", 1), ("U8", 1)]
     rect = [("T8", 1, 2), ("T8", 2, 3), ("TE10", 2, 3), ("U8", 2, 1), ("U8", 3, 2), ("UE10", 3, 2), ("UE14", 2, 1), ("UE14", 3, 2),
             ("E12", 3, 2), ("T16", 1, 2), ("U16", 2, 1)]
+    exact_every = 1
     if ctx.tier == "quick":
-        sq = sq[:6] + rng.sample(sq[6:], 2)
-        rect = rect[:2] + rng.sample(rect[2:], 5)
-    for typ, n in sq:
-        for noisy in ((True, False) if (ctx.tier != "quick" or k % 4 == 0) else (True,)):
+        # rotation over the seeds: every family (square of every type, rectangular T and U shapes, noisy and
+        # exact data, 2..3 frequencies) is visited as the seed varies; each run takes a slice
+        o = rng.randrange(len(sq))
+        sq = [sq[(o + 2 * i) % len(sq)] for i in range(5)]
+        o = rng.randrange(len(rect))
+        rect = [rect[(o + 3 * i) % len(rect)] for i in range(4)]
+        exact_every = 2
+    for idx, (typ, n) in enumerate(sq):
+        for noisy in ((True, False) if idx % exact_every == 0 else (True,)):
             k += 1
             cases.append(VG.scen_square(rng, "vm%d_%s_%d" % (k, typ, n), typ, n, rng.choice([2, 3]),
                                         rng.choice([1e-4, 1e-3]), rng.choice([1e-3, 1e-2, 5e-2]), noisy))
@@ -1155,7 +1185,19 @@ def part_vmatrix(ctx, rec):
         k += 1
         cases.append(VG.scen_rect(rng, "vr%d_%s_%dx%d" % (k, typ, mr, mc), typ, mr, mc, 2,
                                   rng.choice([1e-4, 1e-3]), rng.choice([1e-2, 5e-2, 1e-1]), True))
-    stats = {"vinit": 0, "weights": 0, "weights_distinct": 0, "passes": 0, "updates": 0, "multi_freq_with_v": 0, "rect": 0, "rows": 0}
+    # light scenarios, every run: frequency starts, weights, no-V threads and term lists only (no replay of the
+    # passes) for both diagonal families, square and rectangular, so that these cheap ties never rotate out
+    light = set()
+    if ctx.tier == "quick":
+        for typ, mr, mc in (("T8", 2, 2), ("U8", 2, 2), ("T8", 2, 3), ("U8", 3, 2)):
+            k += 1
+            if mr == mc:
+                sc = VG.scen_square(rng, "vl%d_%s_%d" % (k, typ, mr), typ, mr, 1, 1e-3, 5e-2, True)
+            else:
+                sc = VG.scen_rect(rng, "vl%d_%s_%dx%d" % (k, typ, mr, mc), typ, mr, mc, 1, 1e-3, 5e-2, True)
+            light.add(sc.sid)
+            cases.append(sc)
+    stats = {"vinit": 0, "weights": 0, "weights_distinct": 0, "passes": 0, "updates": 0, "multi_freq_with_v": 0, "rect": 0, "rows": 0, "termlists": 0}
     allfails = []
     for sc in cases:
         rc, out, err = vplib.sh([wbv], input=sc.text(), timeout=120, env=G.run_env(ctx, True))
@@ -1178,21 +1220,23 @@ def part_vmatrix(ctx, rec):
         if not sc.meta.get("noisy") and r["solve"] and r["solve"][-1]["rc"] != 0:
             rec.add({"kind": "exact_rejected", "where": "vmatrix", "type": sc.typ},
                     "exact over-determined data with the model on: vnacal_new_solve failed (%s)" % r["solve"][-1].get("msg"), sc, None)
-        for name, detail in _vmat_replay(ctx, rec, drv, sc, recs, r, stats):
+        for name, detail in _vmat_replay(ctx, rec, drv, sc, recs, r, stats, light=sc.sid in light):
             allfails.append((name, detail, sc))
     names = ["tie:v_init_vs_VMatrixModel.init_v_matrices", "tie:w_vector_vs_VMatrixModel.calc_weights",
-             "tie:no_v_thread_vs_VMatrixModel.eq_terms", "tie:coefficient_rows_vs_VMatrixModel.build_eqs",
+             "tie:no_v_thread_vs_VMatrixModel.eq_terms", "tie:term_lists_vs_VMatrixModel.build_terms", "tie:coefficient_rows_vs_VMatrixModel.build_eqs",
              "tie:v_update_vs_VMatrixModel.update_v_matrices", "tie:v_loop_vs_VMatrixModel.v_loop"]
     for nm in names:
         mine = [f for f in allfails if f[0] == nm]
         ctx.obligation(nm, not mine, mine[0][1] if mine else
                        "%d scenarios (%d rectangular, %d with V matrices at two or more frequencies): %d frequency starts, %d weights "
-                       "(%d vectors with distinct weights), %d passes (%d coefficient rows sampled), %d V updates"
-                       % (len(cases), stats["rect"], stats["multi_freq_with_v"], stats["vinit"], stats["weights"],
-                          stats["weights_distinct"], stats["passes"], stats["rows"], stats["updates"]))
+                       "(%d vectors with distinct weights), %d passes (%d coefficient rows sampled), %d V updates, "
+                       "%d T8/U8 term lists" % (len(cases), stats["rect"], stats["multi_freq_with_v"], stats["vinit"], stats["weights"],
+                                               stats["weights_distinct"], stats["passes"], stats["rows"], stats["updates"],
+                                               stats["termlists"]))
         for _, detail, sc in mine[:1]:
             rec.add({"kind": "model_code_disagree", "tie": nm, "type": sc.typ}, detail, sc, None)
-    cover = stats["rect"] > 0 and stats["multi_freq_with_v"] > 0 and stats["updates"] > 0 and stats["weights_distinct"] > 0
+    cover = (stats["rect"] > 0 and stats["multi_freq_with_v"] > 0 and stats["updates"] > 0 and stats["weights_distinct"] > 0
+             and stats["termlists"] > 0)
     ctx.obligation("tie:vmatrix_coverage", cover, "rectangular %d, multi-frequency with V %d, updates %d, distinct-weight vectors %d"
                    % (stats["rect"], stats["multi_freq_with_v"], stats["updates"], stats["weights_distinct"]))
     return not allfails and cover
@@ -1206,7 +1250,7 @@ def part_noise_spline(ctx, rec, exe):
     drv = ctx.ocaml_driver("drv_vmatrix")
     rng = random.Random(ctx.rng.getrandbits(48))
     scs = []
-    ncase = 10 if ctx.tier == "quick" else 60
+    ncase = 7 if ctx.tier == "quick" else 60
     for k in range(ncase):
         npts = [3, 4, 5, 6, 3, 4, 5][k % 7]
         lo, hi = 1.0e9, 2.0e9
